@@ -57,7 +57,7 @@ m = {
     'engines': [{'name': 'coq-proof+correspondence', 'path': '/verif/check', 'serves_properties': claimed,
                  'kind_free_text': 'Coq 8.16.1 theorems over a model regenerated from /repo (tools/rust2coq.py) and hand-written (coq/theories/Model), tied to the code by a differential run of the extracted model against the real library (harness/)'}],
     'checks': checks,
-    'notes': 'Genuine defects found and repaired (12 fix: commits in /repo) and one recorded known finding (C12): see known_findings.json and DESIGN.md sections 8 and 13.3. Seeded changes used to test the checks: /verif/seeded (110, all caught with a concrete failing input; DESIGN.md 13.4).',
+    'notes': 'Genuine defects found and repaired (12 fix: commits in /repo) and one recorded known finding (C12): see known_findings.json and DESIGN.md sections 8 and 13.3. Seeded changes used to test the checks: /verif/seeded (110, all caught with a concrete failing input; DESIGN.md 13.4). Harmless refactorings used to test for needless alarms: /verif/tools/selftest/benign (16; 15 raise no alarm on any property; DESIGN.md 13.7).',
     'not_applicable': na,
 }
 json.dump(m, open(os.path.join(V, 'MANIFEST.json'), 'w'), indent=1)
